@@ -53,9 +53,14 @@ def run(ctx):
     if rc["rc"] != 0 or len(comments) < 30:
         raise Undecided("TLC enumerated only %d texts with comment lines" % len(comments))
     texts += comments
+    rq = core.tlc(ctx, "gen-quotes", "Snippet", None, cfgtext=cfg("SpecQuotes", ["Emit"], 0), workers=1, timeout=600)
+    quotes = core.behaviours_from_print(rq["out"])
+    if rq["rc"] != 0 or len(quotes) < 20:
+        raise Undecided("TLC enumerated only %d texts with quoted words" % len(quotes))
+    texts += quotes
     groups = [dict(kw=k, texts=texts) for k in KWLISTS]
     # the same property with the keyword list given as the raw option value (a smaller text set: all texts of length <= 3 + mixed line ends)
-    short = [t for t in texts if len(t) <= 3] + mixed + comments
+    short = [t for t in texts if len(t) <= 3] + mixed + comments + quotes
     groups += [dict(kw=[], opt=o, texts=short) for o in KWOPTS]
     inp = ctx.path("s", "in.json")
     out = ctx.path("s", "trace.ndjson")
